@@ -234,8 +234,15 @@ fn global_invariants(s: &mut Pool2, ctx: &mut Ctx, before: &Obs, after: &Obs, ok
                 format!("{opname}: R {:?} S {} -> R {:?} S {}", before.reserves, before.share, after.reserves, after.share));
         }
     }
-    // C07 ledger model
+    // C07: what the ledger says is owed to the collector is really held by the pool
     ctx.eval("C07");
+    for i in 0..2 {
+        if after.pending[i] > after.pair_bal[i] {
+            ctx.fail("C07", "pending_fees_held", "pending_gt_balance", None,
+                format!("{opname}: asset {i}: the pool owes {} of protocol fees but holds only {}", after.pending[i], after.pair_bal[i]));
+        }
+    }
+    // C07 ledger model
     for i in 0..2 {
         let expect = s.model.charged[i] - s.model.received[i];
         if after.pending[i] != expect {
@@ -898,6 +905,18 @@ fn do_withdraw(s: &mut Pool2, ctx: &mut Ctx, actor: usize, lp: u128, fault: Faul
                 if u256(paid) > cap {
                     ctx.fail("C01", "withdraw_pro_rata", "over_pay", None,
                         format!("withdraw {lp} of {} from R {:?}: asset {i} paid {paid} > pro-rata {cap}", before.share, before.reserves));
+                }
+                // C07: owed protocol fees are not LP reserves on the withdrawal path either. A payout
+                // above the share of (balance - owed fees of THIS asset) that stays within the share of
+                // the whole balance was paid out of what is owed to the collector
+                if before.pending[0] > 0 || before.pending[1] > 0 {
+                    ctx.eval("C07");
+                    ctx.probe("withdraw_with_fees_pending");
+                    let cap_all = muldiv(before.pair_bal[i], lp, before.share.max(1));
+                    if u256(paid) > cap && u256(paid) <= cap_all {
+                        ctx.fail("C07", "withdraw_paid_from_reserves_net_of_fees", "owed_fees_paid_out_to_lp", None,
+                            format!("withdraw {lp} of {}: asset {i} paid {paid}; balance {} owed fees {}: the share of the reserves is {cap}, the share of the whole balance {cap_all}", before.share, before.pair_bal[i], before.pending[i]));
+                    }
                 }
                 if before.pair_bal[i] - after.pair_bal[i] != paid {
                     ctx.fail("C01", "withdraw_pro_rata", "pool_paid_ne_user_received", None,
